@@ -4,6 +4,7 @@
 //! `harness replay <what>` replays behaviours emitted by TLC into the real code and compares
 //! `harness record <what>` drives the real code and records traces for TLC to validate
 mod build;
+mod cfr;
 mod edit;
 mod eval;
 mod named;
@@ -33,6 +34,8 @@ fn main() {
         ["record", "named"] => named::record(&args),
         ["replay", "build"] => build::replay(&args),
         ["gen", "edit"] => edit::gen(&args),
+        ["gen", "step"] => cfr::gen_step(&args),
+        ["replay", "step"] => cfr::replay_step(&args),
         other => {
             eprintln!("unknown command {other:?}");
             std::process::exit(2);
